@@ -198,6 +198,68 @@ def _m_diff(a, *args, **kw):
     return SymSeq("list", a.elem, n, [z3.Lambda([j], z3.Select(arr, j + 1) - z3.Select(arr, j))])
 
 
+class SymLin:
+    """A 1-d array of symbolic length whose elements are an arithmetic progression:
+    x[k] = first + k*step for k in [0, size).  What numpy.arange(n) * r + c produces; closed under
+    scalar multiplication / addition.  Element access and .size only (no C code ever sees it)."""
+
+    ndim = 1
+
+    def __init__(self, size, first, step):
+        self.size, self.first, self.step = size, first, step
+
+    @property
+    def shape(self):
+        return (self.size,)
+
+    def __len__(self):
+        raise Unsupported("len() of a symbolic-length array (use .size)")
+
+    def __getitem__(self, i):
+        if isinstance(i, slice):
+            raise Unsupported("slicing a SymLin (build the sub-progression explicitly)")
+        v = self.first + i * self.step
+        return _np.float64(v) if isinstance(v, (int, float)) else v  # array elements are numpy scalars (.item())
+
+    def __mul__(self, k):
+        return SymLin(self.size, self.first * k, self.step * k)
+
+    __rmul__ = __mul__
+
+    def __add__(self, c):
+        return SymLin(self.size, self.first + c, self.step)
+
+    __radd__ = __add__
+
+    def __sub__(self, c):
+        return SymLin(self.size, self.first - c, self.step)
+
+    def __neg__(self):
+        return SymLin(self.size, -self.first, -self.step)
+
+    def astype(self, *a, **k):
+        return self
+
+    @property
+    def values(self):
+        return self
+
+
+def _m_arange(*a, dtype=None, **k):
+    """numpy.arange(n) = 0, 1, .., n-1 and numpy.arange(start, stop) with unit step (what the code uses);
+    a float32 dtype is treated as exact (k + 1/2 is exactly representable below 2**23)"""
+    if len(a) == 1:
+        n = a[0]
+        return SymLin(sym.ite(n > 0, n, 0) if isinstance(n, SymBase) else max(n, 0), 0, 1)
+    if len(a) == 2:
+        from .builtins_ import m_ceil
+
+        start, stop = a
+        n = m_ceil(stop - start)
+        return SymLin(sym.ite(n > 0, n, 0) if isinstance(n, SymBase) else max(n, 0), start, 1)
+    raise Unsupported("numpy.arange with a step on symbolic values")
+
+
 def _m_polyval(p, x, *a, **k):
     """numpy.polyval(p, x) = p[0]*x**(n-1) + ... + p[n-1]  (Horner, exactly as documented) for a short
     python list of coefficients and a scalar x"""
@@ -211,6 +273,7 @@ def _m_polyval(p, x, *a, **k):
 
 _MODELS = {
     "polyval": _m_polyval,
+    "arange": _m_arange,
     "floor": _m_floor,
     "ceil": _m_ceil,
     "abs": _m_abs,
